@@ -125,6 +125,9 @@ func (a *analysis) labelTruth() *vsched.Violation {
 func (a *analysis) selfCheck() *vsched.Violation {
 	for _, rid := range a.Order {
 		r := a.Reqs[rid].Res
+		if r.Blocked != "" {
+			return &vsched.Violation{Sig: "request-blocks-forever", Msg: fmt.Sprintf("request %s %s %s%s never completed: %s", rid, r.Method, r.Host, r.URI, r.Blocked)}
+		}
 		if r.Status != 200 || r.Panic != "" {
 			continue
 		}
